@@ -15,6 +15,32 @@ ASSUMPTIONS = [
 ]
 
 
+MID_TAGS = ["<!-- legacy -->", "{% ref \"init\" %}", "{{ total }}", "{# note #}"]
+LISTY = ["2019.", "2)", "|", "10.", "3)", "| b |"]        # words that look like block starts but cannot interrupt a paragraph
+PLAINW = ["the", "importer", "was", "rewritten", "in", "rows", "then", "follow", "steps", "It", "now.", "Done!"]
+
+
+def tag_paragraph_layouts(rnd):
+    """one paragraph with template tags / comments in mid-line position, in two line layouts that differ only in where the
+    soft breaks fall; no break is adjacent to a tag (the documented exception does not apply)"""
+    n = rnd.choice((6, 9, 14))
+    words = [rnd.choice(PLAINW)]
+    for k in range(1, n):
+        r = rnd.random()
+        words.append(rnd.choice(MID_TAGS) if r < 0.15 and k < n - 1 and words[-1] not in MID_TAGS
+                     else rnd.choice(LISTY) if r < 0.35 else rnd.choice(PLAINW))
+    if words[-1] in MID_TAGS:
+        words.append("end.")
+
+    def lay():
+        out = [words[0]]
+        for a, b in zip(words, words[1:]):
+            brk = rnd.random() < 0.3 and a not in MID_TAGS and b not in MID_TAGS
+            out.append(("\n" if brk else " ") + b)
+        return "".join(out) + "\n"
+    return lay(), lay()
+
+
 def bounded(tier, seed):
     rnd = random.Random(seed)
     n = 80 if tier == "quick" else 800
@@ -38,10 +64,22 @@ def bounded(tier, seed):
             if via != direct:
                 viol.append({"clause": "two_pass_canonical", "input": {"text": d, "options": {"first": [w1, s1], "then": [w2, s2]},
                                                                        **P.doc_features(d)}, "got": via[:300], "want": direct[:300]})
+    # paragraphs with tags in mid-line position: soft breaks elsewhere are not significant
+    for i in range(60 if tier == "quick" else 600):
+        a, b = tag_paragraph_layouts(rnd)
+        for pre in ("", "- "):
+            da, db = pre + a.replace("\n", "\n" + " " * len(pre))[:-len(pre) or None], pre + b.replace("\n", "\n" + " " * len(pre))[:-len(pre) or None]
+            for w, sm in ((88, False), (30, True), (20, False)):
+                oa, ob = P.fmt(da, width=w, semantic=sm), P.fmt(db, width=w, semantic=sm)
+                evals += 1
+                distinct.add(oa)
+                if oa != ob:
+                    viol.append({"clause": "relayout_invariant", "input": {"text": da, "other_layout": db, "options": {"width": w, "semantic": sm},
+                                                                           **P.doc_features(da)}, "got": ob[:300], "want": oa[:300]})
     return {"evaluations": evals, "distinct_nontrivial": len(distinct), "violations": viol, "samples": [{"text": docs[0]}],
             "rule": "seeded documents (no hazard words): multiplying inter-word spaces leaves the output unchanged at (88,fill), "
                     "(20,fill), (30,semantic); formatting first with (w1,mode1) and then with (w2,mode2) equals formatting with "
-                    "(w2,mode2) directly; distinct = distinct baseline outputs",
+                    "(w2,mode2) directly; seeded paragraphs (plain and in a list item) with template tags / comments in mid-line position and list-like words, in two soft-break layouts: same output; distinct = distinct baseline outputs",
             "exhaustive": False, "bound": "%d documents" % n}
 
 
